@@ -26,6 +26,7 @@
     identifiability unchanged ......... id_verdict_equiv_congr (ID model of C02 respects `__eq__`, any topological
                                          orders), simplify_id_verdict, evans_id_verdict, evans_id_verdict_latents
     verdicts from the projection ...... verdict_invariant (any function respecting `__eq__`)
+    taheri_design._get_result ......... design_result, design_keyError
     evans_simplify .................... evans_projection, evans_id
   Nothing is `_partial`.  The separation theorems of section 2b are proved for the walk formulation; section 2c
   proves it equal to the simple-path definition `MG.MConnPath` of Y0/Spec/SepSpec.lean (the one property C04
@@ -448,6 +449,60 @@ theorem evans_id_verdict_latents (fresh prime : Nat → Nat) (hinj : Function.In
   exact ⟨H, hH, id_verdict_equiv_congr ht1 ht2 H G0 X Y
     (projection_validQuery hproj hHw hac X Y hY hne hdisj) hG0w (hproj.equiv hG0)⟩
 
+/-! ## 4. the consumer `taheri_design._get_result` (simplify, read off, run ID on `P(effect | do(cause))`) -/
+
+/-- **`_get_result`.**  On a well-formed acyclic LV-DAG with observed `cause ≠ effect` it never raises; the
+counts it reports are those of the input and of the simplified DAG; the ADMG it returns is the latent
+projection of the INPUT DAG; and its verdict `identifiable` is the verdict of ID on ANY latent projection
+`G0` of the input DAG (for every admissible topological sorter on either side). -/
+theorem design_result (prime : Nat → Nat) (hp : ∀ n, n < prime n) (D : LV) (hw : D.WF) (ha : D.Acyclic)
+    {topo : MG Name → Except Err (List Name)} (ht : TopoGood topo) (c e : Nat) (hc : D.Observed c)
+    (he : D.Observed e) (hce : c ≠ e) :
+    ∃ res r, D.getResult prime topo c e = .ok res ∧ D.simplify prime = .ok r ∧
+      res.preNodes = D.nodes.length ∧ res.preEdges = D.edges.length ∧
+      res.postNodes = r.graph.nodes.length ∧ res.postEdges = r.graph.edges.length ∧
+      r.graph.toMG? = .ok res.admg ∧ IsProjection D res.admg ∧
+      ∀ (G0 : MG Nat) (topo' : MG Name → Except Err (List Name)), IsProjection D G0 → G0.WF → TopoGood topo' →
+        res.identifiable = (identify topo' G0 [c] [e]).isOk := by
+  obtain ⟨r, hr⟩ := simplify_total prime hp D hw ha
+  obtain ⟨G, hG, hproj⟩ := simplify_projection prime hp D hw ha r hr
+  have hGw := toMG?_wf _ G hG
+  have hcG : c ∈ G.nodes := (hproj.nodes c).2 hc
+  have heG : e ∈ G.nodes := (hproj.nodes e).2 he
+  have hY : ∀ y ∈ [e], D.Observed y := by intro y hy; simp at hy; subst hy; exact he
+  have hdisj : ∀ y ∈ [e], y ∉ [c] := by intro y hy; simp at hy; subst hy; simpa using fun h => hce h.symm
+  have hq := projection_validQuery hproj hGw ha [c] [e] hY (by simp) hdisj
+  have key : ∀ b : Bool, b = (identify topo G [c] [e]).isOk →
+      ∀ (G0 : MG Nat) (topo' : MG Name → Except Err (List Name)), IsProjection D G0 → G0.WF → TopoGood topo' →
+        b = (identify topo' G0 [c] [e]).isOk := by
+    intro b hb G0 topo' h0 hw0 ht'
+    rw [hb]
+    exact id_verdict_equiv_congr ht ht' G G0 [c] [e] hq hw0 (hproj.equiv h0)
+  rcases id_total ht G [c] [e] hq with ⟨est, hest⟩ | hun
+  · refine ⟨⟨true, D.nodes.length, D.edges.length, r.graph.nodes.length, r.graph.edges.length, G⟩, r,
+      ?_, hr, rfl, rfl, rfl, rfl, hG, hproj, key true (by rw [hest]; rfl)⟩
+    unfold getResult
+    simp [hr, hG, hcG, heG, hest, bind, Except.bind]
+  · refine ⟨⟨false, D.nodes.length, D.edges.length, r.graph.nodes.length, r.graph.edges.length, G⟩, r,
+      ?_, hr, rfl, rfl, rfl, rfl, hG, hproj, key false (by rw [hun]; rfl)⟩
+    unfold getResult
+    simp [hr, hG, hcG, heG, hun, bind, Except.bind]
+
+/-- a cause or effect that is not an observed node of the (well-formed, acyclic) LV-DAG: `KeyError` -/
+theorem design_keyError (prime : Nat → Nat) (hp : ∀ n, n < prime n) (D : LV) (hw : D.WF) (ha : D.Acyclic)
+    (topo : MG Name → Except Err (List Name)) (c e : Nat) (h : ¬ D.Observed c ∨ ¬ D.Observed e) :
+    D.getResult prime topo c e = .error (.invalidInput "KeyError") := by
+  obtain ⟨r, hr⟩ := simplify_total prime hp D hw ha
+  obtain ⟨G, hG, hproj⟩ := simplify_projection prime hp D hw ha r hr
+  unfold getResult
+  by_cases hc : c ∈ G.nodes
+  · have he : e ∉ G.nodes := fun he => by
+      rcases h with h | h
+      · exact h ((hproj.nodes c).1 hc)
+      · exact h ((hproj.nodes e).1 he)
+    simp [hr, hG, hc, he, bind, Except.bind]
+  · simp [hr, hG, hc, bind, Except.bind]
+
 /-! ## non-vacuity: an LV-DAG on which every rule fires
 
 nodes 1,2,3,4 observed; latents 10 (middle: parent 1, children 11 and 2), 11 (middle: parent 10,
@@ -494,5 +549,22 @@ example :
     ((chainDag.simplify (· + 100)).toOption.bind (fun r => r.graph.toMG?.toOption)).map
       (fun G => ((G.dSeparated 1 3 [2]).toOption, (G.dSeparated 1 3 []).toOption, G.di, G.bi)) =
       some (some true, some false, [(1, 2), (2, 3)], []) := by decide
+
+/-! non-vacuity of sections 2d and 4: `chainDag` satisfies the hypotheses, an admissible topological sorter
+exists (`ancTopo`, Lemmas/IdTopoAnc.lean), `1` and `3` are distinct observed nodes -/
+theorem chainDag_wf_acyclic : chainDag.WF ∧ chainDag.Acyclic :=
+  ⟨⟨by decide, by decide, by decide, by decide, rfl⟩,
+    acyclic_of_rank chainDag (fun n => if n = 1 then 0 else if n = 10 then 1 else if n = 2 then 2 else 3) (by decide)⟩
+
+example : TopoGood ancTopo := ancTopo_good
+
+example := design_result (· + 100) (fun n => by omega) chainDag chainDag_wf_acyclic.1 chainDag_wf_acyclic.2
+  ancTopo_good 1 3 ⟨by decide, by decide⟩ ⟨by decide, by decide⟩ (by decide)
+
+example (r : SimplifyResults) (h : chainDag.simplify (· + 100) = .ok r) (G0 : MG Nat)
+    (hG0 : IsProjection chainDag G0) (hG0w : G0.WF) :=
+  simplify_id_verdict (· + 100) (fun n => by omega) chainDag chainDag_wf_acyclic.1 chainDag_wf_acyclic.2 r h G0 hG0 hG0w
+    ancTopo_good ancTopo_good [1] [3] (by intro y hy; simp at hy; subst hy; exact ⟨by decide, by decide⟩)
+    (by simp) (by simp)
 
 end Y0.LV
